@@ -56,7 +56,12 @@ class _Docker:
                         rec["wrote_partial"] = True
                 if script["outcome"] == "fail_after" and i == script["k"]:
                     raise DockerException(["docker", "run", image], 1, b"", b"boom")
-                yield ("stdout" if i % 2 == 0 else "stderr", f"chunk {i}\n".encode())
+                data = f"chunk {i}\n".encode()
+                if script.get("chunk_bytes") == "split_utf8":     # a multi-byte character cut by the chunk boundary
+                    data = (b"width 5 \xc2" if i % 2 == 0 else b"\xb5m\n")
+                elif script.get("chunk_bytes") == "latin1":        # job output that is not UTF-8 at all
+                    data = b"caf\xe9 \xb5m\n"
+                yield ("stdout" if (i % 2 == 0 or script.get("chunk_bytes") == "split_utf8") else "stderr", data)
             if script["outcome"] == "fail_after" and script["k"] >= n:
                 raise DockerException(["docker", "run", image], 1, b"", b"boom at exit")
             if script["outcome"] in ("ok",):
